@@ -175,6 +175,13 @@ package analysis
 //@   loop range:varInfoList.VarVec step [declaration-skipped-only-when-read-exempt-or-a-library-alias] hits("InsertError#0") == prev(hits("InsertError#0")) ==>
 //@        oneVar.IsUse || oneVar.IsClose || oneVar.ReferFunc != nil || hits("IsInSysNotUseMap#0") > prev(hits("IsInSysNotUseMap#0")) || hits("IsInSysNotUseMap#1") > prev(hits("IsInSysNotUseMap#1"))
 //@ end
+// the exemption "alias of a library name" (local concat = table.concat) goes by BINDING: the leading name of the
+// initialiser is resolved, in the scope being closed and at the position of the declaration, before the library table
+// is asked (fix: `local math = {}; local x = math.foo` was exempt by spelling)
+//@ func (*Analysis).checkLocVarCall
+//@   props C07
+//@   at call FindLocVar#0 before assert[leading-name-is-resolved-where-the-local-is-declared] arg0 == a.curScope && arg2 == oneVar.Loc
+//@ end
 // C17: the pass emits two diagnostic types, 4 and 17, each with a switch of its own: it is skipped as a whole only when
 // BOTH are off (fix 6298dda; the per-type filtering is done where each report is recorded)
 //@ func (*Analysis).checkLocVarCall
